@@ -217,7 +217,14 @@ func (d *Decoder) decodeValue(value reflect.Value) {
 		return
 	}
 
-	value.Set(reflect.ValueOf(val).Convert(value.Type()))
+	decoded := reflect.ValueOf(val)
+	if !decoded.IsValid() || !decoded.Type().ConvertibleTo(value.Type()) {
+		// for example: got object of another interface (or bool, or vector) where specific one is expected
+		d.err = fmt.Errorf("can't use decoded value of type %T as %v", val, value.Type())
+		return
+	}
+
+	value.Set(decoded.Convert(value.Type()))
 }
 
 // декодирует базовые типы, строчки числа, вот это. если тип не найден возвращает nil
